@@ -1,1 +1,93 @@
-From Sci Require Import Defrag.Model.
+(** C17 -- property theorems only.  Each is closed by [exact] of a lemma of [Proofs], pinned by
+    [Check], and followed by [Print Assumptions]. *)
+From Sci Require Import Defrag.Model Defrag.Spec Defrag.Proofs.
+Local Open Scope N_scope.
+
+(** Every emitted packet consists entirely of bytes received in frames of that same packet
+    (same stream offset) accepted into the emitting slot since the slot's last
+    initialisation, each byte at its own position; the packet length is the one announced
+    by a LAST frame of that packet; nothing panics.  For every byte type, every frame
+    sequence, every positive queue count: no bound on sizes or history length. *)
+Theorem emitted_bytes_own_epoch :
+  forall (B : Type) (dflt : B) (n : nat) (fs : list (frame B)),
+    n <> 0%nat ->
+    Forall2 GoodStep fs (grun (defrag_new dflt n) (repeat [] n) fs).
+Proof.
+  intros B dflt n fs Hn. apply grun_good; [apply DInv_new|].
+  unfold defrag_new. destruct n; [congruence|discriminate].
+Qed.
+Check emitted_bytes_own_epoch :
+  forall (B : Type) (dflt : B) (n : nat) (fs : list (frame B)),
+    n <> 0%nat -> Forall2 GoodStep fs (grun (defrag_new dflt n) (repeat [] n) fs).
+Print Assumptions emitted_bytes_own_epoch.
+
+(** the ghost logs used above hold only frames of the history delivered so far *)
+Theorem logs_are_history :
+  forall (B : Type) (dflt : B) (n : nat) (fs : list (frame B)) k r ev logs',
+    nth_error (grun (defrag_new dflt n) (repeat [] n) fs) k = Some (r, ev, logs') ->
+    LogsFrom (firstn (S k) fs) logs'.
+Proof.
+  intros B dflt n fs k r ev logs' H.
+  refine (grun_logs_from _ _ fs [] _ k r ev logs' H).
+  intros lg g Hlg Hg. apply repeat_spec in Hlg. subst lg. destruct Hg.
+Qed.
+Print Assumptions logs_are_history.
+
+(** with an honest sender an emitted packet is byte-identical to the packet that was sent *)
+Theorem honest_emission_identical :
+  forall (B : Type) (mtu so : N) (data : list B) frames nxt lg so' p,
+    fragmenter_send mtu so data = Ok (frames, nxt) ->
+    Emitted lg so' p -> (forall g, In g lg -> In g frames) -> p = data.
+Proof.
+  intros B mtu so data frames nxt lg so' p Hs He Hsub.
+  apply (honest_identical lg so' data p He). intros g Hg. specialize (Hsub g Hg).
+  unfold fragmenter_send in Hs.
+  destruct (MAX_PACKET_SIZE <? N.of_nat (length data)) eqn:E1; [discriminate|].
+  destruct (N.of_nat (length data) =? 0); [discriminate|].
+  inversion Hs; subst frames nxt; clear Hs. apply N.ltb_ge in E1.
+  refine (proj2 (send_frames_honest (length data) so _ 0 [] data _ eq_refl E1 g Hsub)).
+  unfold clamp_mtu. pose proof (N.le_max_r (N.min mtu MAX_MTU) MIN_MTU).
+  assert (MIN_MTU = 272 /\ HEADER_SIZE = 16) as [E2 E3] by (split; reflexivity).
+  rewrite E2, E3 in *. lia.
+Qed.
+Print Assumptions honest_emission_identical.
+
+(** at most one emission per slot epoch: an emission closes the slot, a closed slot
+    rejects every frame until it is initialised again.
+    PARTIAL with respect to the property's "at most once": across epochs the recorded
+    finding C17-dup-reemit (Findings.v) shows a duplicated packet is emitted again. *)
+Theorem one_emission_per_epoch_partial :
+  forall (B : Type) (q : queue B) log f q' so p,
+    QInv q log -> h_so (f_hdr f) = q_so q -> ingest_frame q f = (q', Ok (Some (so, p))) ->
+    q_idle q' = true /\ forall g, ingest_frame q' g = (q', Err QueueNotAccepting).
+Proof.
+  intros B q log f q' so p I Hso E. pose proof (emission_closes_epoch q log f q' so p I Hso E) as H.
+  split; [exact H|]. intros g. apply idle_slot_rejects. exact H.
+Qed.
+Print Assumptions one_emission_per_epoch_partial.
+
+(** arbitrary frames never grow memory: the number of slots is constant, every slot buffer
+    keeps its size and every slot tracks at most MAX_FRAMES frames *)
+Theorem bounded_state :
+  forall (B : Type) (qs : list (queue B)) logs f qs' r ev,
+    DInv qs logs -> qs <> [] -> recv_frame qs f = (qs', r, ev) ->
+    length qs' = length qs /\
+    forall i q, nth_error qs' i = Some q ->
+      length (q_buf q) = N.to_nat MAX_PACKET_SIZE /\
+      (q_idle q = false -> (length (q_mask q) <= N.to_nat MAX_FRAMES)%nat).
+Proof.
+  intros B qs logs f qs' r ev D Hne E. split; [eapply recv_frame_length; eauto|].
+  destruct (recv_frame_spec qs logs f qs' r ev D Hne E) as ((_ & DQ) & _).
+  intros i q Hq. specialize (DQ i q Hq). split; [apply (qi_len _ _ DQ)|].
+  intros Hi. eapply mask_bounded. apply (qi_act _ _ DQ Hi).
+Qed.
+Print Assumptions bounded_state.
+
+(** non-vacuity: a three-frame packet delivered last-frame-first is emitted, intact *)
+Example reorder_emits :
+  let d1 := repeat 1 256 in let d2 := repeat 2 256 in let d3 := repeat 3 10 in
+  let f1 := mkFrame (mkHdr 0 0 0) d1 in let f2 := mkFrame (mkHdr 0 256 0) d2 in
+  let f3 := mkFrame (mkHdr 0 512 32768) d3 in
+  map (fun x => fst (fst x)) (grun (defrag_new 0 2) (repeat [] 2) [f3; f1; f2])
+  = [Ok None; Ok None; Ok (Some (0, d1 ++ d2 ++ d3))].
+Proof. vm_compute. reflexivity. Qed.
